@@ -33,8 +33,8 @@ static uint64_t gen_u(const char *f, int pos, int vclass) {
   if (has(f, "ui_pow_ui")) return pos == 1 ? UIS[rnd_below(12)] >> (rnd_below(2) ? 0 : 40) : rnd_below(6);
   if (has(f, "pow_ui")) return rnd_below(13);
   if (has(f, "root")) return 1 + rnd_below(7);
+  if (has(f, "mfac")) return pos == 1 ? rnd_below(120) : 1 + rnd_below(7);          /* before "fac_ui", which mpz_mfac_uiui also contains: m = 0 is outside the domain */
   if (has(f, "fac_ui") || has(f, "primorial") || has(f, "fib") || has(f, "lucnum")) return vclass == 0 ? rnd_below(25) : rnd_below(400);
-  if (has(f, "mfac")) return pos == 1 ? rnd_below(120) : 1 + rnd_below(7);
   if (has(f, "bin_uiui")) return pos == 1 ? rnd_below(90) : rnd_below(40);
   if (has(f, "bin_ui")) return rnd_below(25);
   if (has(f, "powm_ui")) return rnd_below(2) ? rnd_below(40) : rnd64() >> 44;
@@ -207,6 +207,9 @@ static int skip_qf(const api_fn *f) {
 static void setq_rand(int i, int vclass) {           /* a canonical rational */
   callf("drv_rndz", 6, gen_limbs(vclass), (int)rnd_below(NKINDS), (int)rnd_below(2)); callf("drv_rndz", 7, 1 + gen_limbs(vclass) / 2, 0, 0);
   if (SIZ(Zp[7]) == 0) callf("mpz_set_ui", 7, (uint64_t)3);
+  { int w = (int)rnd_below(5);      /* whole zero limbs at the low end of the denominator (w = 0) or numerator (w = 1): the limb-skipping paths of the 2exp functions */
+    if (w < 2 && SIZ(Zp[6]) != 0) { uint64_t sh = 64 * (1 + rnd_below(2)) + (rnd_below(2) ? rnd_below(64) : 0);
+      callf("mpz_setbit", w ? 7 : 6, (uint64_t)0); callf("mpz_mul_2exp", w ? 6 : 7, w ? 6 : 7, sh); } }
   callf("mpq_set_z", i, 6); callf("mpq_set_den", i, 7); callf("mpq_canonicalize", i);
 }
 static void setf_rand(int i, int vclass) {
@@ -244,7 +247,7 @@ void drv_alias_qf(int tier, unsigned long seed, const char *extra) {
         for (i = 0; i < f->nargs; i++) { a[i].kind = f->kinds[i];
           switch (f->kinds[i]) { case K_U: a[i].u = rnd_below(3) ? UIS[rnd_below(12)] : rnd64() >> rnd_below(64); if (has(f->name, "div_ui") && a[i].u == 0) a[i].u = 3; if (has(f->name, "cmp_ui") && !isF && i == 2 && a[i].u == 0) a[i].u = 1;
               if (has(f->name, "set_ui") && !isF && i == 2 && a[i].u == 0) a[i].u = 1; if (has(f->name, "set_si") && !isF && i == 2 && a[i].u == 0) a[i].u = 1; if (has(f->name, "cmp_si") && !isF && i == 2 && a[i].u == 0) a[i].u = 1; break;
-            case K_S: a[i].s = SIS[rnd_below(11)]; break; case K_B: a[i].u = gen_b(f->name); break; case K_D: a[i].d = DS[rnd_below(11)]; break;
+            case K_S: a[i].s = SIS[rnd_below(11)]; break; case K_B: a[i].u = gen_b(f->name); if (has(f->name, "mpf_eq") && a[i].u == 0) a[i].u = 1 + rnd_below(200); break; case K_D: a[i].d = DS[rnd_below(11)]; break;
             case K_ZI: callf("drv_rndz", 5, gen_limbs(vclass), 0, (int)rnd_below(2)); if (has(f->name, "set_den") && SIZ(Zp[5]) == 0) callf("mpz_set_ui", 5, (uint64_t)2); var[i] = 5; break;
             case K_ZO: var[i] = 4; break; default: break; } }
         /* domain: non-zero divisors, non-negative square roots (otherwise the arithmetic signal, which the specification also accepts) */
